@@ -16,6 +16,8 @@ struct RBmp {
 	uint32_t importantColors = 0;
 	std::vector<RColor> palette;            // entries stored in the file (file order blue, green, red, alpha handled by encoder)
 	std::vector<uint8_t> rows;              // |height| rows of pitch() bytes, file row order
+	uint32_t gapBeforePixels = 0;           // unused bytes between the colour table and the pixel array (the pixel offset field accounts for them)
+	bool fillImageSize = false;             // the optional image size field holds the pixel array size instead of 0
 
 	static uint64_t pitchOf(int depth, int64_t width) { uint64_t bytes = (uint64_t(width) * uint64_t(depth) + 7) / 8; return (bytes + 3) & ~uint64_t(3); }
 	static uint64_t rowBytesOf(int depth, int64_t width) { return (uint64_t(width) * uint64_t(depth) + 7) / 8; }
@@ -30,7 +32,7 @@ inline std::vector<uint8_t> encodeBmp(const RBmp& b, std::vector<Field>* f = nul
 {
 	std::vector<uint8_t> v;
 	auto F = [&](int w, const std::string& n) { if (f) f->push_back({ v.size(), w, n }); };
-	uint32_t pixelOffset = 14 + 40 + uint32_t(b.palette.size()) * 4;
+	uint32_t pixelOffset = 14 + 40 + uint32_t(b.palette.size()) * 4 + b.gapBeforePixels;
 	mc::putStr(v, "BM");
 	F(4, "fileSize"); mc::put32(v, pixelOffset + uint32_t(b.rows.size()));
 	F(2, "reserved1"); mc::put16(v, 0); F(2, "reserved2"); mc::put16(v, 0);
@@ -41,11 +43,12 @@ inline std::vector<uint8_t> encodeBmp(const RBmp& b, std::vector<Field>* f = nul
 	F(2, "planes"); mc::put16(v, 1);
 	F(2, "bitCount"); mc::put16(v, uint16_t(b.depth));
 	F(4, "compression"); mc::put32(v, 0);
-	F(4, "imageSize"); mc::put32(v, 0);
+	F(4, "imageSize"); mc::put32(v, b.fillImageSize ? uint32_t(b.rows.size()) : 0);
 	F(4, "xResolution"); mc::put32(v, 0); F(4, "yResolution"); mc::put32(v, 0);
 	F(4, "usedColors"); mc::put32(v, b.usedColors);
 	F(4, "importantColors"); mc::put32(v, b.importantColors);
 	for (auto& c : b.palette) { v.push_back(c.b); v.push_back(c.g); v.push_back(c.r); v.push_back(c.a); }
+	for (uint32_t i = 0; i < b.gapBeforePixels; ++i) v.push_back(uint8_t(0xC1 + i));
 	v.insert(v.end(), b.rows.begin(), b.rows.end());
 	return v;
 }
